@@ -735,3 +735,23 @@ def handed_on_unchanged(body, operand, name):
         return False
     sl = body.slice_op(operand)
     return not sl.callee_names() and not [d for d in sl.assigns if d["stmt"]["rv"]["k"] in ("binop", "unop", "aggregate")]
+
+
+# calls that change a text / byte string's content (as opposed to re-typing, borrowing, copying, concatenating it)
+TRANSFORM = (r"(str>|\[u8\]>|\[T\]>|String|Vec::<T, A>|canonical)::(trim\w*|strip_\w+|to_(ascii_)?(lower|upper)case|make_ascii_(lower|upper)case|replace\w*|truncate|pop|remove|drain|retain\w*|dedup\w*|sort\w*|reverse|"
+             r"r?split\w*|chars|char_indices|bytes|escape_\w+|encode_upper|to_uppercase|to_lowercase|repeat|swap\w*|rotate_\w+|fill\w*|insert|insert_str|splice)$"
+             r"|Iterator::(rev|skip|take|skip_while|take_while|step_by|filter|filter_map|map|flat_map|nth|last|scan|dedup\w*|cycle|chain|zip|fold|try_fold)$"
+             r"|String::from_utf8_lossy$|from_utf8_lossy$|canonical::(unescape_uri_encoding|normalize_\w+|latin1_to_string)$|percent\w*|hex::(decode|encode_upper)$")
+
+
+def transforms(body, operand, allow=None, stop=None):
+    """Callees in the backward slice of `operand` that alter the content of a string / byte value (TRANSFORM), minus the
+    ones matching `allow`. `stop`: regex of calls at which the walk ends (the reviewed source of the value)."""
+    sl = body.slice_op(operand, stop_at_calls=(lambda t_: bool(re.search(stop, t_.get("callee", "")))) if stop else None)
+    out = []
+    for c_ in sl.callee_names():
+        if stop and re.search(stop, c_):
+            continue
+        if re.search(TRANSFORM, c_) and not (allow and re.search(allow, c_)):
+            out.append(c_)
+    return sorted(set(out))
